@@ -1017,3 +1017,47 @@ TWINS["C17"] = [
     TW("constant-rewritten", (RM, "self.q_matrix = np.ones((self.n_states, self.n_actions)) * self.rmax * 1/(1-mdp.discount_rate)", "self.q_matrix = self.rmax * np.ones((self.n_states, self.n_actions)) / (1-mdp.discount_rate)")),
     TW("backup-commuted", (RM, 'new_q = empirical_reward_mat + gamma * np.einsum("san,n->sa", empirical_transition_mat, v)', 'new_q = np.einsum("san,n->sa", empirical_transition_mat, v) * gamma + empirical_reward_mat')),
 ]
+
+# ----------------------------------------------------------------------------------- C04
+LR = A + "lrtdp.py"
+MUTANTS["C04"] = [
+    M("revert-F2-raw-heuristic-default", ["BEL-7"],
+      (LR, "        self.res.V = defaultdict2(lambda s: 0 if mdp.is_absorbing(s) else heuristic(s))", "        self.res.V = defaultdict2(heuristic)")),
+    M("revert-converged-on-early-return", ["BEL-5"],
+      (LR, "                self.res.converged = True\n                return\n", "                return\n")),
+    M("q-future-unguarded", ["BEL-7"],
+      (LR, "            future = 0\n            if not mdp.is_absorbing(ns):\n                future = self.res.V[ns]", "            future = self.res.V[ns]")),
+    M("q-guard-on-current-state", ["BEL-7"],
+      (LR, "            if not mdp.is_absorbing(ns):\n                future = self.res.V[ns]", "            if not mdp.is_absorbing(s):\n                future = self.res.V[ns]")),
+    M("q-no-discount", ["BEL-2"],
+      (LR, "q += prob * (mdp.reward(s, a, ns) + mdp.discount_rate*future)", "q += prob * (mdp.reward(s, a, ns) + future)")),
+    M("q-reward-unweighted", ["BEL-2"],
+      (LR, "q += prob * (mdp.reward(s, a, ns) + mdp.discount_rate*future)", "q += mdp.reward(s, a, ns) + prob * mdp.discount_rate*future")),
+    M("q-absorbing-shortcut-dropped", ["BEL-2"],
+      (LR, "        if mdp.is_absorbing(s):\n            return 0\n        q = 0", "        q = 0")),
+    M("update-min", ["UPD-1"],
+      (LR, "self.res.V[s] = max(self.Q(mdp, s, a) for a in mdp.actions(s))", "self.res.V[s] = min(self.Q(mdp, s, a) for a in mdp.actions(s))")),
+    M("label-when-flag-false", ["LAB-2"],
+      (LR, "        if flag:\n            for ns in closed:\n                self.res.solved[ns] = True\n        else:", "        for ns in closed:\n            self.res.solved[ns] = True\n        if not flag:")),
+    M("margin-hardcoded", ["LAB-1"],
+      (LR, "if abs(residual) > self.bellman_error_margin:", "if abs(residual) > 1e-2:")),
+    M("residual-signed", ["LAB-1"],
+      (LR, "if abs(residual) > self.bellman_error_margin:", "if residual > self.bellman_error_margin:")),
+    M("trial-absorbing-not-labelled", ["TRIAL-3"],
+      (LR, "            if mdp.is_absorbing(s):\n                self.res.solved[s] = True\n", "")),
+    M("trial-successor-of-random-action", ["TRIAL-2"],
+      (LR, "s = mdp.next_state_dist(s, self.policy(mdp, s)).sample(rng=self.rng)", "s = mdp.next_state_dist(s, self.rng.choice(list(mdp.actions(s)))).sample(rng=self.rng)")),
+    M("cache-store-only-unshuffled", ["CACHE-1"],
+      (LR, "                action_list = mdp.actions(s)\n            self.res.action_orders[s] = action_list", "                action_list = mdp.actions(s)\n                self.res.action_orders[s] = action_list")),
+    M("cache-store-dropped", ["CACHE-1"],
+      (LR, "            self.res.action_orders[s] = action_list\n", "")),
+    M("shuffle-in-place", ["GRD-1"],
+      (LR, "                action_list = list(mdp.actions(s))\n", "                action_list = mdp.actions(s)\n")),
+    M("initial-value-unweighted", ["BEL-6"],
+      (LR, "res.initial_value = sum([res.V[s0]*p for s0, p in mdp.initial_state_dist().items()])", "res.initial_value = sum([res.V[s0] for s0, p in mdp.initial_state_dist().items()])")),
+]
+TWINS["C04"] = [
+    TW("q-factor-order", (LR, "q += prob * (mdp.reward(s, a, ns) + mdp.discount_rate*future)", "q += (future*mdp.discount_rate + mdp.reward(s, a, ns)) * prob")),
+    TW("cache-early-store",
+       (LR, "                action_list = list(mdp.actions(s))\n                self.rng.shuffle(action_list)\n", "                action_list = list(mdp.actions(s))\n                self.rng.shuffle(action_list)\n                self.res.action_orders[s] = action_list\n")),
+]
